@@ -484,6 +484,97 @@ Section Valid.
     end.
 End Valid.
 
+(* ---------- three further audited rules (valid_kind_x / valid_obj_x) ----------
+   Certain from the normative texts, and kept apart from valid_kind / valid_obj (the predicate of the C02
+   soundness theorems, which predate them) so that those statements stay what they were:
+   - binary: "a base64-encoded string as specified in [RFC4648]" (2.0 part 1 / 2.1, section 2.1): only
+     characters of the base64 alphabet, padded with '=' to a multiple of four (RFC 4648 sections 3.1-3.3, 4:
+     no line feeds, no characters outside the alphabet, padding mandatory);
+   - dictionary: "dictionary values MUST be valid property base types" (section 2.4/2.5): null is not a
+     type, and "empty lists are prohibited" (list type), at any depth inside the values;
+   - modified: "MUST be later than or equal to the value of the created property" (common properties).
+     This one is a co-constraint of the frozen tables (spec/audited_overrides.json, `add_constraint`), so it
+     is already part of valid_obj.
+   - marking-definition: `definition` is of the marking type `definition_type` names (marking_match below).
+   valid_obj_x is what the C02 oracle evaluates on the implementation's output and what the C03 generator
+   filters candidates with.                                                                            *)
+Definition strict_base64 (s : ustring) : bool :=
+  Nat.eqb (Nat.modulo (List.length s) 4) 0 &&
+  match rev s with
+  | 61%N :: 61%N :: r => forallb is_b64char r
+  | 61%N :: r => forallb is_b64char r
+  | r => forallb is_b64char r
+  end.
+
+Fixpoint dict_value_ok (j : jvalue) : bool :=
+  match j with
+  | JNull => false
+  | JArr l => match l with [] => false | _ => (fix go (l : list jvalue) := match l with [] => true | x :: r => dict_value_ok x && go r end) l end
+  | JObj m => (fix go (m : list (ustring * jvalue)) := match m with [] => true | kv :: r => dict_value_ok (snd kv) && go r end) m
+  | _ => true
+  end.
+
+Definition leaf_extra (k : pkind) (j : jvalue) : bool :=
+  match k with
+  | KBinary => match j with JStr s => strict_base64 s | _ => false end
+  | KDict _ => match j with JObj m => forallb (fun kv => dict_value_ok (snd kv)) m | _ => false end
+  | _ => true
+  end.
+
+(* marking-definition: "The value of the definition_type property MUST be statement when using this marking
+   type" / "... MUST be tlp ..." (2.0 part 1 section 4.1.3-4.1.4, 2.1 section 7.2.1.3-7.2.1.4): the `definition` is
+   an object of the marking type that `definition_type` names (when that is a registered type). *)
+Definition marking_match (sw : world) (vo : ustring -> jvalue -> bool) (cid : ustring) (j : jvalue) : bool :=
+  match find_class (wclasses sw) cid, j with
+  | Some c, JObj m =>
+    match find (fun s => ustr_eqb (sname s) (u "definition")) (cslots c) with
+    | Some s =>
+      match skind s with
+      | KMarking v =>
+        match jlookup (u "definition_type") m, jlookup (u "definition") m with
+        | Some (JStr dt), Some d => match assoc dt (rmarkings (reg_of sw v)) with Some mc => vo mc d | None => true end
+        | _, _ => true
+        end
+      | _ => true
+      end
+    | None => true
+    end
+  | _, _ => true
+  end.
+
+Section ValidX.
+  Variable sw : world.
+  Variable pattern_ok : ver -> ustring -> bool.
+
+  Fixpoint valid_kind_x (fuel : nat) (k : pkind) (j : jvalue) {struct fuel} : bool :=
+    match fuel with
+    | O => false
+    | S f => leaf_extra k j && valid_kind_body sw (valid_kind_x f) (valid_obj_x f) k j
+    end
+  with valid_obj_x (fuel : nat) (cid : ustring) (j : jvalue) {struct fuel} : bool :=
+    match fuel with
+    | O => false
+    | S f => valid_obj_body sw (valid_kind_x f) (jconstr pattern_ok (S f)) cid j && marking_match sw (valid_obj_x f) cid j
+    end.
+
+  Definition explain_obj_x (fuel : nat) (cid : ustring) (j : jvalue) : list why :=
+    match find_class (wclasses sw) cid, j with
+    | Some c, JObj m =>
+      flat_map (fun kv => match find (fun s => ustr_eqb (sname s) (fst kv)) (cslots c) with
+                          | Some s => if valid_kind_x fuel (skind s) (snd kv) then [] else [WBadValue (fst kv)]
+                          | None => if has_toplevel_extension c m && no_empties (snd kv) then [] else [WUnknownProperty (fst kv)]
+                          end) m ++
+      flat_map (fun s => if negb (spec_required c s) || match jlookup (sname s) m with Some _ => true | None => false end
+                         then [] else [WMissing (sname s)]) (cslots c) ++
+      flat_map (fun ik => if jconstr pattern_ok (S fuel) c m (snd ik) then [] else [WConstraint (fst ik)])
+               (let cs := (match cfamily c with FExt => [CAtLeastOneDefault] | _ => [] end) ++ ccons c in
+                combine (seq 0 (List.length cs)) cs) ++
+      (if marking_match sw (valid_obj_x fuel) cid j then [] else [WBadValue (u "definition")])
+    | None, _ => [WNoClass]
+    | _, _ => [WNotObject]
+    end.
+End ValidX.
+
 Definition show_why1 (w : why) : string :=
   match w with
   | WNotObject => "not-an-object" | WNoClass => "no-such-class"
